@@ -177,8 +177,12 @@ impl<'a> Cx<'a> {
 			Expr::Match(m) => {
 				let mut arms = vec![];
 				for a in &m.arms {
+					let mut body = self.expr(&a.body);
+					if body.is_empty() && !matches!(&*a.body, Expr::Block(_)) {
+						body.push(json!({"k": "stmt", "text": txt(&a.body), "line": self.src.line_of(a.body.span())}));
+					}
 					arms.push(json!({"pat": txt(&a.pat), "guard": a.guard.as_ref().map(|(_, g)| txt(g)),
-						"cfg": cfg_of(&a.attrs), "body": self.expr(&a.body)}));
+						"cfg": cfg_of(&a.attrs), "body": body}));
 				}
 				vec![json!({"k": "match", "on": txt(&m.expr), "arms": arms, "line": line})]
 			},
@@ -322,7 +326,7 @@ pub fn run_file(src: &Src, path: &str, file: &syn::File, units: &mut Vec<Value>)
 				Item::Impl(im) => {
 					let ty = txt(&im.self_ty).replace(' ', "");
 					let o = match &im.trait_ {
-						Some((_, p, _)) => format!("<{} as {}>::", ty, txt(p).replace(' ', "")),
+						Some((_, p, _)) => format!("<{}@{}>::", ty, txt(p).replace(" ", "")),
 						None => format!("{}::", ty),
 					};
 					for ii in &im.items {
